@@ -188,8 +188,21 @@ class Ctx:
         self.assumptions.add(text)
 
 
+class VPoison(Val):
+    """value of a loop-assigned variable / self attribute that the loop's invariant says nothing about: any use is an engine limit
+    (never a verdict).  Installed at the loop head by the frame guard (loop_with_invariant)."""
+    pytype = 'poison'
+
+    def __init__(self, what):
+        self.what = what
+
+
 class LoopSpec:
-    """Inductive invariant for one loop (sidecar).  Override the hooks."""
+    """Inductive invariant for one loop (sidecar).  Override the hooks.
+    Frame guard: every local name and self.attribute the loop body can store to must be given a fresh value by head() (or be
+    listed in `modifies` when head() re-installs an identical object); anything else is poisoned for the rest of the function."""
+    modifies = frozenset()
+
     def establish(self, ex, p):
         """obligations that must hold on entry: list of (name, z3 Bool)"""
         return []
@@ -528,7 +541,10 @@ class Exec:
     def lookup(self, p, name, node=None):
         fr = p.frames[-1]
         if name in fr.env:
-            return fr.env[name]
+            v = fr.env[name]
+            if isinstance(v, VPoison):
+                raise EngineError(v.what + f' (read at line {getattr(node, "lineno", "?")})')
+            return v
         from . import lib
         v = lib.module_global(self, fr.module, name)
         if v is not None:
@@ -766,6 +782,15 @@ class Exec:
             return
         sym = {'Lt': '<', 'LtE': '<=', 'Gt': '>', 'GtE': '>='}[opn]
         if is_num(a) and is_num(b):
+            # a comparison involving a ROUNDED mpf value is decided on the ideal values; that is the computed decision as long as
+            # the two ideal values are further apart than the accumulated rounding error: obligation
+            errs = [v.err for v in (a, b) if isinstance(v, VMpf) and v.err]
+            if errs and all(e is not None for e in errs):
+                tot = sum(errs)
+                da, db = zreal(a), zreal(b)
+                from fractions import Fraction as _F
+                tz_ = z3.RealVal(str(_F(tot)))
+                self.oblige(p, 'mpf-compare-robust', z3.Or(da - db > tz_, db - da > tz_), f'comparison-decided-beyond-rounding-error@L{getattr(node, "lineno", "?")}')
             yield p, self.num_cmp(sym, a, b)
             return
         if isinstance(a, VVersion) and isinstance(b, VVersion):
@@ -843,6 +868,8 @@ class Exec:
             h = p.heap[base.ref]
             if isinstance(h, HObj):
                 if attr in h.fields:
+                    if isinstance(h.fields[attr], VPoison):
+                        raise EngineError(h.fields[attr].what + f' (read at line {getattr(node, "lineno", "?")})')
                     yield p, h.fields[attr]
                     return
                 m = lib.find_method(self, h.cls, attr)
@@ -1295,14 +1322,77 @@ class Exec:
     def loop_with_invariant(self, s, p, spec, key, bind=None):
         for name, goal in spec.establish(self, p):
             self.oblige(p, 'loop-establish', goal, f'{key[0].split(".")[-1]}.{key[1]}.{name}')
+        names, attrs = self.loop_write_set(s)
+        sure_n, sure_a = set(), set()
+        tops = ([s.target] if isinstance(s, ast.For) else []) + [t for st in s.body if isinstance(st, (ast.Assign, ast.AugAssign, ast.AnnAssign))
+                                                               for t in (st.targets if isinstance(st, ast.Assign) else [st.target])]
+        for t in tops:
+            for n in ast.walk(t):
+                if isinstance(n, ast.Name) and isinstance(n.ctx, ast.Store):
+                    sure_n.add(n.id)
+                elif isinstance(n, ast.Attribute) and isinstance(n.ctx, ast.Store) and isinstance(n.value, ast.Name) and n.value.id == 'self':
+                    sure_a.add(n.attr)
+        pre_env = dict(p.env)
+        selfv = p.env.get('self')
+        pre_fields = None
+        if isinstance(selfv, VRef) and isinstance(p.heap.get(selfv.ref), HObj):
+            pre_fields = dict(p.heap[selfv.ref].fields)
         heads = spec.head(self, p)
         if heads is None:
             heads = [p]
         for hk, h in enumerate(heads):
             h.trail.append(f'loop{key[1]}' + (f'.{hk}' if len(heads) > 1 else ''))
-            yield from self._loop_from_head(s, h, spec, key, bind)
+            # frame guard: a local / self attribute the body may store to and head() did not re-describe is WATCHED; if some
+            # completed iteration leaves it changed, the loop is explored again with it poisoned from the head on
+            watch_n = {n: h.env.get(n) for n in names
+                       if n not in spec.modifies and (n not in h.env or (n in pre_env and h.env[n] is pre_env[n]))}
+            watch_a = {}
+            if pre_fields is not None and selfv.ref in h.heap:
+                f = h.heap[selfv.ref].fields
+                watch_a = {a: f.get(a) for a in attrs
+                           if ('self.' + a) not in spec.modifies and (a not in f or (a in pre_fields and f[a] is pre_fields[a]))}
+            # names stored unconditionally by every iteration certainly change: poison them at once (saves the second pass)
+            for n in sure_n & set(watch_n):
+                h.env[n] = VPoison(f'local {n} is assigned in loop {key} but not covered by its invariant')
+                del watch_n[n]
+            for a in sure_a & set(watch_a):
+                h.heap[selfv.ref].fields[a] = VPoison(f'self.{a} is assigned in loop {key} but not covered by its invariant')
+                del watch_a[a]
+            while True:
+                mark = len(self.ctx.obligations)
+                changed = set()
+                h0 = h.fork()
+                outs = list(self._loop_from_head(s, h0, spec, key, bind, (watch_n, watch_a, selfv, changed)))
+                if not changed:
+                    break
+                del self.ctx.obligations[mark:]
+                for kind, n in changed:
+                    what = f'{"local " if kind == "n" else "self."}{n} is assigned in loop {key} but not covered by its invariant'
+                    if kind == 'n':
+                        h.env[n] = VPoison(what)
+                        watch_n.pop(n, None)
+                    else:
+                        h.heap[selfv.ref].fields[n] = VPoison(what)
+                        watch_a.pop(n, None)
+            yield from outs
 
-    def _loop_from_head(self, s, h, spec, key, bind):
+    _loop_ws_cache = {}
+
+    def loop_write_set(self, s):
+        """(local names, self attributes) that the statements of loop s can store to"""
+        c = self._loop_ws_cache.get(id(s))
+        if c is not None and c[0] is s:
+            return c[1], c[2]
+        names, attrs = set(), set()
+        for n in ast.walk(s):
+            if isinstance(n, ast.Name) and isinstance(n.ctx, (ast.Store, ast.Del)):
+                names.add(n.id)
+            elif isinstance(n, ast.Attribute) and isinstance(n.ctx, (ast.Store, ast.Del)) and isinstance(n.value, ast.Name) and n.value.id == 'self':
+                attrs.add(n.attr)
+        self._loop_ws_cache[id(s)] = (s, names, attrs)
+        return names, attrs
+
+    def _loop_from_head(self, s, h, spec, key, bind, watch=None):
         if bind is not None:
             # for-loop: bind(h) yields (path, has_next: bool)
             tests = bind(h)
@@ -1327,6 +1417,16 @@ class Exec:
                 continue
             for q3, out in self.exec_block(s.body, q):
                 if out is NORMAL or out is CONT:
+                    if watch is not None:
+                        watch_n, watch_a, selfv, changed = watch
+                        for n, v0 in watch_n.items():
+                            if q3.env.get(n) is not v0:
+                                changed.add(('n', n))
+                        if watch_a:
+                            f = q3.heap[selfv.ref].fields
+                            for a, v0 in watch_a.items():
+                                if f.get(a) is not v0:
+                                    changed.add(('a', a))
                     for name, goal in spec.preserve(self, q3):
                         self.oblige(q3, 'loop-preserve', goal, f'{key[0].split(".")[-1]}.{key[1]}.{name}')
                 elif out is BRK:
